@@ -86,3 +86,17 @@ Theorem C14_positions_exact_carv2 :
       p_hw fin <= payload_end.
 Proof. exact c14_v2. Qed.
 Print Assumptions C14_positions_exact_carv2.
+
+(* For ALL reader states (any input bytes, any options): Next and SkipNext report io.EOF only
+   at a clean end -- the stream they read from is exhausted exactly at a call boundary, or
+   (ZeroLengthSectionAsEOF) the next section's length is the single byte 0.  In particular a
+   source that ends right after a non-zero length varint is not a clean end for either call
+   (SkipNext: after notes/fixes/C14-skipnext-eof-after-varint.patch). *)
+Theorem C14_eof_only_at_a_clean_end :
+  forall hok o st,
+    (brp_next hok o st = Err EEof ->
+       vis st = [] \/ (o_zeof o = true /\ exists rest n, read_uv (vis st) = VOk 0 rest n)) /\
+    (brp_skip o st = Err EEof ->
+       vis st = [] \/ (o_zeof o = true /\ exists rest n, read_uv (vis st) = VOk 0 rest n)).
+Proof. exact c14_eof_clean. Qed.
+Print Assumptions C14_eof_only_at_a_clean_end.
